@@ -208,14 +208,14 @@ static std::string parse_asan(const std::string &err, std::string &cls) {
     return k;
 }
 
-static std::string read_fd_all(int fd) {
+static std::string read_fd_all(int fd, size_t limit = (size_t)1 << 20) {
     std::string s;
     lseek(fd, 0, SEEK_SET);
     char buf[65536];
     ssize_t n;
     while ((n = read(fd, buf, sizeof buf)) > 0) {
         s.append(buf, (size_t)n);
-        if (s.size() > (1u << 20)) break;
+        if (s.size() > limit) break;
     }
     return s;
 }
@@ -247,7 +247,7 @@ static void publish_outcome(Shared *sh, const Outcome &o) {
 static int child_main(Engine &e) {
     Shared *sh = (Shared *)mmap(nullptr, sizeof(Shared), PROT_READ | PROT_WRITE, MAP_SHARED, 201, 0);
     if (sh == MAP_FAILED) return 3;
-    std::string text = read_fd_all(200);
+    std::string text = read_fd_all(200, (size_t)1 << 31); // plans can be large (tens of thousands of values)
     Plan p;
     std::string err;
     if (!Plan::from_text(text, p, err)) return 3;
@@ -366,9 +366,13 @@ GuardedResult guarded_execute(Engine &e, const Plan &p, int timeout_s) {
             // died while decoding the output of a call that reported success
             cls = "wrong-success";
         }
+        // a note may carry detail after " |" that is reported but is not part of the key
+        std::string full_ctx = ctx;
+        size_t bar = ctx.find(" |");
+        if (bar != std::string::npos) ctx = ctx.substr(0, bar);
         r.out.cls = cls;
         r.out.key = ctx.empty() ? extra : (extra.empty() ? ctx : ctx + " " + extra);
-        r.out.detail = "process died (" + r.how + ") while: " + ctx;
+        r.out.detail = "process died (" + r.how + ") while: " + full_ctx;
         r.stderr_excerpt = err.substr(0, 6000);
     }
     munmap(sh, sizeof(Shared));
